@@ -35,7 +35,7 @@ def conditions(tier):
         cs.append(C(H16, "legacy", "h_legacy_segmentation", h, w, t=2 * T, VERIF_LMAX=2 if h * w <= 4 else 1, key="legacy-segmentation"))
     cs.append(C(H16, "legacy", "h_legacy_array", t=2 * T, key="legacy-array"))
     for (h, w) in ([(2, 3)] if q else [(2, 3), (3, 2), (1, 2), (2, 2)]):
-        cs.append(C(H16, "compass", "h_compass", h, w, t=2 * T, key="compass"))
+        cs.append(C(H16, "compass", "h_compass", h, w, t=4 * T, key="compass"))
     return cs
 
 
